@@ -32,6 +32,7 @@ def run(tier):
     P = crashcheck.crash_programs(rng, 160 if thorough else 40, thorough, "c03", ck=ck)
     trace, v, nobs = crashcheck.run_crash(ck, P, "c03", {"C03", "C19", "C10"})
     crashcheck.repair_conformance(ck, trace, "C03")
+    crashcheck.ts_repair_conformance(ck, trace, "C03")
     ck.cov["distinct_nontrivial"] = sum(1 for l in open(trace) if l.startswith('{"e":"CrashObs"') and '"modified":true' in l)
     ck.cov["rule"] = "one case per crash image (k complete backend writes + j bytes of the next); non-trivial = the open repaired the image (modified it)"
     ck.cov["samples"] = [l.strip()[:260] for l in open(trace) if l.startswith('{"e":"CrashObs"') and '"modified":true' in l][:2]
